@@ -5,7 +5,7 @@ import (
 	"go/types"
 	"strings"
 
-	"golang.org/x/text/encoding/simplifiedchinese"
+	repoutils "github.com/cuteLittleDevil/go-jt808/protocol/utils"
 	"golang.org/x/tools/go/ssa"
 )
 
@@ -1088,13 +1088,15 @@ func stubGBK(decode bool) stubFn {
 			for i, t := range b {
 				raw[i] = byte(t.k)
 			}
+			// concrete text: the repository's own function, compiled into this binary from /repo's
+			// current tree (the check rebuilds the engine on every run), is called natively
 			var out []byte
 			if decode {
-				out, _ = simplifiedchinese.GBK.NewDecoder().Bytes(raw)
+				out = repoutils.GBK2UTF8(raw)
 			} else {
-				out, _ = simplifiedchinese.GBK.NewEncoder().Bytes(raw)
+				out = repoutils.UTF82GBK(raw)
 			}
-			if len(raw) == 0 {
+			if out == nil {
 				out = []byte{}
 			}
 			return []Value{ex.newByteSlice(ex.bytesConst(out), 0, "gbk")}
